@@ -160,11 +160,10 @@ Case generate() {
     count_excluded();
     c[F_OPTS] = c[F_OPTS] & ~16;
   }
-  //  - KEY_LINEAR_EMPTY: no empty graph for LC_Linear_Graph (also under LC_InOut_Graph)
-  if (excluded(KEY_LINEAR_EMPTY) && (kind == K_LINEAR || kind == K_INOUT_OTHER) && n == 0) {
+  //  - KEY_LINEAR_MISALIGNED: LC_Linear_Graph option combinations 3 and 5 (void / uint32 data) are not built
+  if (excluded(KEY_LINEAR_MISALIGNED) && kind == K_LINEAR && (c[F_ETYPE] == ET_VOID || c[F_ETYPE] == ET_U32) && linear_cfg_misaligned((int)((c[F_OPTS] & 7) % 6))) {
     count_excluded();
-    n = 1;
-    c[F_NODES] = 1;
+    c[F_OPTS] = c[F_OPTS] & ~7;
   }
   //  - KEY_CSC_SORT_VOID: no in-edge sort on a by-reference LC_CSR_CSC_Graph without edge data
   if (excluded(KEY_CSC_SORT_VOID) && (kind == K_CSC_READGRAPH || kind == K_CSC_GRFILE) && c[F_ETYPE] == ET_VOID && csc_cfg_by_reference((int)c[F_OPTS])) {
@@ -239,8 +238,8 @@ std::string finding_key(const Case& c0, const std::string& failkey) {
   int kind = (int)c[F_KIND];
   if (failkey == "findEdgeSortedByDst-no-edges")
     return KEY_SORTED_EMPTY;
-  if (failkey == "crash" && c[F_NODES] == 0 && (kind == K_LINEAR || kind == K_INOUT_OTHER))
-    return KEY_LINEAR_EMPTY; // sanitizer abort inside the parallel construction: reported as a crash
+  if (failkey == "misaligned-edge-records")
+    return KEY_LINEAR_MISALIGNED;
   if (failkey == "sortInEdgesByDst-void-edge-data")
     return KEY_CSC_SORT_VOID;
   if (failkey == "constructFrom-reuse-out-of-line-lockable")
@@ -288,10 +287,11 @@ static void decode(const Case& c, Ctx& x) {
   // readGraphFromGRFile asserts non-null node and edge arrays: at least one node and one edge
   if (grfile && x.n == 0)
     x.n = 1;
-  if (x.n == 0 && (x.kind == K_LINEAR || x.kind == K_INOUT_OTHER) && excluded(KEY_LINEAR_EMPTY)) {
-    count_excluded(); // (cases that do not come from the generator)
+  // LC_Linear_Graph::constructNodesFrom offsets the (null) storage pointer of an empty graph before its
+  // empty loop: never dereferenced, but UBSan (pointer-overflow, non-recoverable in this build) ends the
+  // process.  The empty graph is therefore not built for this layout (also under LC_InOut_Graph).
+  if (x.n == 0 && (x.kind == K_LINEAR || x.kind == K_INOUT_OTHER))
     x.n = 1;
-  }
   // MorphGraph undirected (opts cfg 2): every file edge is one undirected edge; self loops are left out
   bool undirected = x.kind == K_MORPH_READGRAPH && (x.opts & 7) % 3 == 2;
   // the isomorphism check of the unordered morph layouts needs distinct edge labels
@@ -573,6 +573,7 @@ static void run_csr_t(const Ctx& c, bool out_of_line_locks = false) {
   for (uint32_t i = 0; i < c.n; ++i)
     CCHECK(nm.nodes[i] == i, "node-order", "begin()[%u] = %u", i, (unsigned)nm.nodes[i]);
   model = csr_check_all(g, c, nm, model, true, "as built");
+  check_node_data(g, c, nm, model, c.m + 1);
   check_local_ranges(g, c, nm);
   if constexpr (!IsCsc) {
     int step = 0;
